@@ -101,3 +101,44 @@ QUICK = [((8, 8, 8), 'F', 0, -1), ((8, 8, 8), 'W', 0, -1), ((8, 8, 8), 'V', 0, -
          ((8, 16, 4), 'F', 123, 2),
          # every single-digit pattern as an explicit integer (1 is not True), and the limit 0
          ((32, 8, 8), 'V', 1, -1), ((8, 16, 4), 'W', 3, -1), ((8, 8, 8), 'F', 2, 0)]
+
+
+def check_preconditioner_directions():
+    """multigrid as pre-conditioner of a Krylov solver: over ALL fine-grid cycles of a solve (they are spread over several pre-conditioner calls) the
+    semicoarsening direction of the k-th cycle is pattern[k % len(pattern)], and so is the line-relaxation direction -- recorded at the real
+    solver.restriction / solver.smoothing calls on the fine grid"""
+    import emg3d
+    from emg3d import solver
+    n = 0
+    for sc, lr, scp, lrp in ((12, True, [1, 2], [4, 5, 6]), (True, 47, [1, 2, 3], [4, 7]), (102, 4567, [1, 0, 2], [4, 5, 6, 7])):
+        for cycle in ('F', 'V'):
+            n += 1
+            shape = (16, 16, 16)
+            grid = emg3d.TensorMesh([np.ones(16) * 50.0] * 3, origin=(0, 0, 0))
+            model = emg3d.Model(grid, 1.0)
+            sfield = emg3d.get_source_field(grid, [403.0, 398.0, 401.0, 30, 10], frequency=1.0)
+            used_sc, used_lr = [], []
+            r0, s0 = solver.restriction, solver.smoothing
+
+            def restriction(vmodel, sf, res, sc_dir):
+                if tuple(vmodel.grid.shape_cells) == shape:
+                    used_sc.append(int(sc_dir))
+                return r0(vmodel, sf, res, sc_dir)
+
+            def smoothing(vmodel, sf, ef, nu, lr_dir):
+                if tuple(vmodel.grid.shape_cells) == shape:
+                    used_lr.append(int(lr_dir))
+                return s0(vmodel, sf, ef, nu, lr_dir)
+            solver.restriction, solver.smoothing = restriction, smoothing
+            try:
+                emg3d.solve(model, sfield, cycle=cycle, sslsolver='bicgstab', semicoarsening=sc, linerelaxation=lr, verb=0, maxit=3, tol=1e-30)
+            finally:
+                solver.restriction, solver.smoothing = r0, s0
+            want_sc = [scp[k % len(scp)] for k in range(len(used_sc))]
+            lr_per_cycle = used_lr[::2]            # pre- and post-smoothing of a fine-grid cycle use the same direction
+            want_lr = [lrp[k % len(lrp)] for k in range(len(lr_per_cycle))]
+            if len(used_sc) < 4 or used_sc != want_sc or lr_per_cycle != want_lr:
+                return dict(reproduced=True, cases=n, clause='directions advance cyclically, once per fine-grid cycle, also across the calls of multigrid as pre-conditioner',
+                            semicoarsening=sc, linerelaxation=lr, cycle=cycle, sc_dirs_used=used_sc, sc_dirs_promised=want_sc, lr_dirs_used=lr_per_cycle, lr_dirs_promised=want_lr,
+                            how='contracts.c05_concrete.check_preconditioner_directions: emg3d.solve(sslsolver="bicgstab") with recording wrappers of solver.restriction / solver.smoothing')
+    return dict(reproduced=False, cases=n)
